@@ -4,6 +4,8 @@ import Driver.FastKeccak
 import Aurora.Model.Cac
 import Aurora.Model.HashTrie
 import Aurora.Model.HashTrieBuf
+import Aurora.Model.ChunkPipe
+import Aurora.Model.FeedPipeline
 import Aurora.Model.Joiner
 import Aurora.Model.EncUpload
 /-!
@@ -18,7 +20,12 @@ Ops (one output line each):
 * `open` — `joiner.New` on the reference; `size`
 * `readat <off> <len> <cap>` — `ReadAt` into a sentinel-filled (0xEE) buffer of that len/cap
 * `read <len> <cap>` — `Read`; `seek <off> <whence>`; `readall` — `file.JoinReadAll`
-* `new pipe` — the writes go through `file.ChunkPipe` + `builder.FeedPipeline` on the Go side (same model)
+* `new pipe` — the writes go through `file.ChunkPipe` + `builder.FeedPipeline`: every `write` runs the
+  model `Aurora.ChunkPipe.write` (buffer + cursor of `pkg/file/buffer.go`) and each piece it hands on is
+  one `Write` of the pipeline model (what one `Read` of `FeedPipeline` receives from the `io.Pipe`);
+  `sum` = `Close` (the buffered rest leaves as last piece) then `Sum`.  The `sum` answer carries
+  `pp=<number of pieces>:<chained digest of (length, fnv) of every piece>`, which the Go runner observes on
+  the reader side of the real pipe.  `Spec.root` is evaluated on the bytes as the uploader wrote them.
 
 Encrypted mode (`new enc`, and `new encsmall <C> <B>`: the same writers with a small feeder chunk
 size / branching, writer side only): the model is `Aurora.EncUpload.upload` (feeder → encryption →
@@ -40,6 +47,17 @@ chunk, addresses `keccak("A" ‖ le64 off ‖ le64 span)` (the joiner never re-h
 position by the encryption model, so files beyond 1 GiB (two intermediate levels with the real
 constants) can be read through the joiner model and the real joiner.  `readall` answers
 `noreadall` there.
+
+`new feed <shape>` — the written bytes are handed to `builder.FeedPipeline` at `sum` through a reader of the
+given shape (Go side: `bytes.Reader`, `iotest.DataErrReader` / `OneByteReader` / `HalfReader`, a reader that
+returns at most k bytes and `io.EOF` with the last ones).  `write` only collects (answer = the length); the
+runner annotates the `sum` line with the result of every `Read` (`<n>` or `<n>e` when it came with `io.EOF`);
+the driver checks that they are admissible (each `<= ChunkSize`, the buffer of `FeedPipeline`; they cover the
+content; exactly one `e`, on the last one — else `bad-annot`), runs `Aurora.FeedPipeline.writes` on them and
+feeds the resulting `pipeline.Write` calls to the pipeline model.
+
+`parup <reps> <src>…` — concurrent uploads on the Go side (one goroutine per source, the first `reps` times,
+the others until the first is done); the model side is sequential: `ok <reference of every source>`.
 
 **Literal hash-trie writer next to the list model** (plain modes `new`, `new pipe`, `new small`): every
 chunk handed to the list-level `Upload` model is also written into the literal buffer-and-cursor model
@@ -245,6 +263,10 @@ structure St where
   cache : Std.HashMap Bytes (Except Aurora.Joiner.Err Bytes) := {}   -- encrypted mode: `encGet`, memoised
   synth : Option Synth := none
   lit : Option Lit := none                    -- the literal hash-trie writer (plain modes)
+  pipe : Option Aurora.ChunkPipe.State := none   -- `new pipe`: the ChunkPipe in front of the pipeline
+  ppN : Nat := 0                              -- pieces that left the ChunkPipe
+  ppH : UInt64 := 0                           -- chained digest of them
+  feed : Bool := false                        -- `new feed`: writes are collected, `FeedPipeline` runs at `sum`
   litBad : Bool := false                      -- it disagreed with the list model
 
 def St.params (st : St) : Nat × Nat :=
@@ -306,6 +328,63 @@ def St.write1 (st : St) (b : Bytes) : St × Option Int :=
   let (u, n) := st.up.write st.cref c bb b
   let st := st.litStep chunks u
   ({ st with up := u, segsRev := b :: st.segsRev }.drain, n)
+
+/-- a piece left the ChunkPipe (= one `Read` of `FeedPipeline`): count it, chain its length and digest -/
+def St.notePiece (st : St) (p : Bytes) : St :=
+  { st with ppN := st.ppN + 1,
+            ppH := fnv (Aurora.Cac.le64 st.ppH.toNat ++ Aurora.Cac.le64 p.length ++ Aurora.Cac.le64 (fnv p).toNat) }
+
+/-- `FeedPipeline`: every piece read from the pipe is one `pipeline.Write` -/
+def St.feedPieces (st : St) (pieces : List Bytes) : St × Bool :=
+  pieces.foldl (fun (acc : St × Bool) p =>
+    if !acc.2 then acc else
+    let (s, n) := (acc.1.notePiece p).write1 p
+    (s, n.isSome)) (st, true)
+
+/-- one `Write` of the uploader: straight into the pipeline, or (`new pipe`) into the ChunkPipe model,
+    whose pieces go into the pipeline.  `segsRev` keeps the bytes as the uploader wrote them. -/
+def St.userWrite (st : St) (b : Bytes) : St × Option Int :=
+  if st.feed then ({ st with segsRev := b :: st.segsRev }, some (b.length : Int)) else
+  match st.pipe with
+  | none => st.write1 b
+  | some c =>
+    let segs := st.segsRev
+    let (c', pieces, n) := Aurora.ChunkPipe.write C c b
+    let (st, ok) := st.feedPieces pieces
+    ({ st with pipe := some c', segsRev := b :: segs }, if ok then some (n : Int) else none)
+
+/-- `ChunkPipe.Close()` before `Sum` -/
+def St.pipeClose (st : St) : St :=
+  match st.pipe with
+  | none => st
+  | some c =>
+    let segs := st.segsRev
+    let (st, _) := st.feedPieces (Aurora.ChunkPipe.close c)
+    { st with pipe := some {}, segsRev := segs }
+
+/-- the annotated `Read` results of `new feed` mode as slices of the content -/
+def parseReads (content : Bytes) (ann : List String) : Option (List Aurora.FeedPipeline.ReadRes) :=
+  let r := ann.foldl (fun (acc : Option (Bytes × List Aurora.FeedPipeline.ReadRes × Bool)) tok =>
+    match acc with
+    | none => none
+    | some (rest, rs, sawEof) =>
+      if sawEof then none else                  -- a read after `io.EOF`
+      let eof := tok.endsWith "e"
+      match (if eof then (tok.dropEnd 1).toString else tok).toNat? with
+      | none => none
+      | some n =>
+        if n > C ∨ n > rest.length then none    -- more than the buffer / more than the content holds
+        else some (rest.drop n, rs ++ [(rest.take n, eof)], eof)) (some (content, [], false))
+  match r with
+  | some ([], rs, true) => some rs
+  | _ => none
+
+/-- reference of ONE sequential upload of `data` in a single write (`parup`) -/
+def seqRef (data : Bytes) : Option Bytes :=
+  (Aurora.HashTrie.upload fastBmt C Aurora.Tree.branching [data]).2
+
+def St.ppField (st : St) : String :=
+  if st.pipe.isSome then s!" pp={st.ppN}:{hex64 st.ppH}" else ""
 
 def splitEvery (k : Nat) : Nat → Bytes → List Bytes
   | 0, _ => []
@@ -406,7 +485,19 @@ def step (st : St) (opl : List String) : St × String :=
     match c.toNat?, b.toNat? with
     | some c, some b => if c = 0 ∨ c > C ∨ b < 2 ∨ encR * b > encP then (st, "bad-op") else ({ mode := .encsmall c b }, "ok")
     | _, _ => (st, "bad-op")
-  | ["new", "pipe"] => ({ mode := .plain, lit := some (Lit.init ()) }, "ok")   -- ChunkPipe + FeedPipeline only re-segment the writes
+  | ["new", "feed", shape] =>
+    let ok := shape ∈ ["plain", "dataerr", "one", "half", "halfdataerr"] ||
+      (shape.startsWith "chunk" && (match (shape.drop 5).toString.toNat? with | some k => k > 0 | none => false))
+    if ok then ({ mode := .plain, lit := some (Lit.init ()), feed := true }, "ok") else (st, "bad-op")
+  | "parup" :: reps :: srcs =>
+    match reps.toNat?, srcs.mapM Driver.parseSrc with
+    | some reps, some ds =>
+      if reps < 1 ∨ reps > 50 ∨ ds.isEmpty ∨ ds.length > 38 then (st, "bad-op") else
+      (st, "ok" ++ String.join (ds.map fun d => match seqRef d with
+        | some r => " " ++ Driver.bytesToHex r
+        | none => " err"))
+    | _, _ => (st, "bad-op")
+  | ["new", "pipe"] => ({ mode := .plain, lit := some (Lit.init ()), pipe := some {} }, "ok")
   | ["new", "small", c, b] =>
     match c.toNat?, b.toNat? with
     | some c, some b => if c = 0 ∨ c > C ∨ b < 2 then (st, "bad-op") else
@@ -432,7 +523,7 @@ def step (st : St) (opl : List String) : St × String :=
     match Driver.parseSrc src with
     | none => (st, "bad-op")
     | some b =>
-      let (st, n) := st.write1 b
+      let (st, n) := st.userWrite b
       match n with
       | some n =>
         if st.litBad then (st, "BUF-LIST-MISMATCH") else
@@ -447,7 +538,7 @@ def step (st : St) (opl : List String) : St × String :=
       if k = 0 then (st, "bad-op") else
       let (st, tot, ok) := (splitEvery k (b.length + 1) b).foldl (fun (acc : St × Int × Bool) seg =>
         if !acc.2.2 then acc else
-        let (s, n) := acc.1.write1 seg
+        let (s, n) := acc.1.userWrite seg
         match n with
         | some n => (s, acc.2.1 + n, true)
         | none => (s, acc.2.1, false)) (st, 0, true)
@@ -461,6 +552,22 @@ def step (st : St) (opl : List String) : St × String :=
     if st.summed then (st, "summed") else
     if st.failed then (st, "err") else
     if st.mode.isEnc then sumEnc st ann else
+    -- `new feed`: FeedPipeline over the observed read results
+    let feedRes : Option St :=
+      if !st.feed then some st else
+      match parseReads st.segsRev.reverse.flatten ann with
+      | none => none
+      | some rs =>
+        let segs := st.segsRev
+        let (s, _) := (Aurora.FeedPipeline.writes rs).foldl (fun (acc : St × Bool) p =>
+          if !acc.2 then acc else
+          let (s, n) := acc.1.write1 p
+          (s, n.isSome)) (st, true)
+        some { s with segsRev := segs }
+    match feedRes with
+    | none => ({ st with summed := true, failed := true }, if ann.isEmpty then "no-annot" else "bad-annot")
+    | some st =>
+    let st := st.pipeClose
     let (c, bb) := st.params
     let chunks := (Aurora.Feeder.sum st.up.feeder).2
     let st := st.memoise chunks
@@ -494,7 +601,7 @@ def step (st : St) (opl : List String) : St × String :=
         (st, s!"SPEC-MISMATCH model={Driver.bytesToHex ref} spec={match spec with | some s => Driver.bytesToHex s | none => "none"}")
       else
         let (st, f) := st.litField
-        (st, s!"ok {Driver.bytesToHex ref} {st.nputs} {hex64 st.pdig}" ++ f)
+        (st, s!"ok {Driver.bytesToHex ref} {st.nputs} {hex64 st.pdig}" ++ f ++ st.ppField)
   | ["open"] =>
     match st.root with
     | none => (st, "nosum")
